@@ -1084,6 +1084,10 @@ class TopLevel:
             if t.v == 'using' and p.peek(1).k == 'id' and p.peek(2).v == '=':
                 p.known_types.add(p.peek(1).v)
                 self.u.aliases.add(p.peek(1).v)
+            if t.v == 'typedef' and p.peek(1).v == 'enum':
+                p.next()
+                self.parse_enum(typedef=True)
+                return
             if t.v in ('using', 'typedef', 'static_assert', 'friend'):
                 while not p.at(';'):
                     if p.at('{'): p.skip_balanced('{', '}')
@@ -1160,7 +1164,7 @@ class TopLevel:
         p.next()
         return True
 
-    def parse_enum(self):
+    def parse_enum(self, typedef=False):
         p = self.p
         p.expect('enum')
         scoped = False
@@ -1187,6 +1191,8 @@ class TopLevel:
             if not p.accept(','):
                 break
         p.expect('}')
+        if typedef and p.peek().k == 'id':
+            name = p.next().v
         p.accept(';')
         ed = EnumDef(name, items, scoped)
         if name:
